@@ -543,7 +543,23 @@ func (e *Engine) execInstr(fr *Frame, st *State, ins ssa.Instruction) {
 		fr.defers = append(fr.defers, d)
 	case *ssa.RunDefers:
 		e.runDefers(fr, st, ins)
-	case *ssa.Lookup, *ssa.MakeMap, *ssa.MapUpdate, *ssa.MakeChan, *ssa.Send, *ssa.Select, *ssa.Go, *ssa.Range, *ssa.Next:
+	case *ssa.Lookup:
+		if _, isMap := ins.X.Type().Underlying().(*types.Map); !isMap {
+			unsupported("instruction %T (%s) in %s", ins, ins, fr.fn.String())
+		}
+		// map read: maps are not modelled; a lookup yields an arbitrary (well-formed) value and,
+		// in the comma-ok form, an arbitrary flag. Reads have no side effect, so this only loses
+		// information.
+		mt := ins.X.Type().Underlying().(*types.Map)
+		v := e.freshOf(st, "maplookup", mt.Elem())
+		e.assumeWFVal(fr, st, v, mt.Elem())
+		if ins.CommaOk {
+			fr.vals[ins] = TupleVal([]Val{v, e.tb.Fresh("mapok", SBool)})
+		} else {
+			fr.vals[ins] = v
+		}
+		e.notes = append(e.notes, "map lookup in "+fr.fn.Name()+" abstracted: arbitrary element")
+	case *ssa.MakeMap, *ssa.MapUpdate, *ssa.MakeChan, *ssa.Send, *ssa.Select, *ssa.Go, *ssa.Range, *ssa.Next:
 		unsupported("instruction %T (%s) in %s", ins, ins, fr.fn.String())
 	case *ssa.SliceToArrayPointer, *ssa.MultiConvert:
 		unsupported("instruction %T", ins)
